@@ -221,5 +221,184 @@ theorem trso_clearSurr {sep : SepTest} {q : Query} (h : usesLine6 sep q.fuel q =
   rw [clearSurr_fuel]
   exact trsoF_clearSurr sep _ q h
 
+/-! ### the exact version (`usesLine6x`: line 4 read lazily) -/
+
+private theorem collectTerms_cons_eq {r : Except Err (Option Expr)} {l1 l2 : List (Except Err (Option Expr))}
+    (h : (∃ t, r = .ok (some t)) → collectTerms l1 = collectTerms l2) :
+    collectTerms (r :: l1) = collectTerms (r :: l2) := by
+  cases r with
+  | error e => rfl
+  | ok o =>
+    cases o with
+    | none => rfl
+    | some t =>
+      unfold collectTerms
+      rw [h ⟨t, rfl⟩]
+
+/-- line 4, lazily: the two loops evaluate the same components and get the same answers -/
+theorem collectTerms_anyUntil {use : Query → Bool} {rec1 rec2 : Rec}
+    (hrec : ∀ s, use s = false → rec1 s = rec2 (clearSurr s)) :
+    ∀ (l : List Query), anyUntil use rec1 l = false →
+      collectTerms (l.map rec1) = collectTerms ((l.map clearSurr).map rec2)
+  | [], _ => rfl
+  | s :: rest, h => by
+    unfold anyUntil at h
+    obtain ⟨hu, hm⟩ := Bool.or_eq_false_iff.1 h
+    rw [List.map_cons, List.map_cons, List.map_cons, ← hrec s hu]
+    apply collectTerms_cons_eq
+    rintro ⟨t, ht⟩
+    rw [ht] at hm
+    exact collectTerms_anyUntil hrec rest hm
+
+theorem step4_congr_x {rec1 rec2 : Rec} {q : Query} {G : MG Name} {dwi : List (List Name)}
+    (h : collectTerms ((line4 q G dwi).map rec1) = collectTerms (((line4 q G dwi).map clearSurr).map rec2)) :
+    step4 rec1 q G dwi = step4 rec2 (clearSurr q) G dwi := by
+  unfold step4
+  rw [line4_clearSurr, h]
+  rfl
+
+/-- **A run that never uses line 6 at a state it really reaches is the run without declared experiments.** -/
+theorem trsoF_clearSurr_x (sep : SepTest) :
+    ∀ (fuel : Nat) (q : Query), usesLine6x sep fuel q = false → trsoF sep fuel q = trsoF sep fuel (clearSurr q)
+  | 0, _, _ => rfl
+  | fuel + 1, q, h => by
+    have ih := trsoF_clearSurr_x sep fuel
+    unfold usesLine6x at h
+    unfold trsoF
+    rw [clearSurr_graph]
+    cases hg : q.graph with
+    | error e => rfl
+    | ok G =>
+      rw [hg] at h
+      simp only at h
+      rw [okBind, okBind]
+      rw [clearSurr_X, clearSurr_Y]
+      by_cases hX : q.X.isEmpty = true
+      · rw [if_pos hX, if_pos hX]; rfl
+      · rw [if_neg hX, if_neg hX]
+        rw [if_neg hX] at h
+        cases ha : G.ancestorsInclusive q.Y with
+        | error e => rfl
+        | ok anc =>
+          rw [ha] at h
+          simp only at h
+          rw [okBind, okBind]
+          by_cases h2 : (!(diff' (regularNodes G) anc).isEmpty) = true
+          · rw [if_pos h2, if_pos h2]
+            rw [if_pos h2] at h
+            refine step2_congr (fun q' hq' => ih q' ?_)
+            rw [hq'] at h
+            exact h
+          · rw [if_neg h2, if_neg h2]
+            rw [if_neg h2] at h
+            cases he : noEffectOnOutcomes G q.X q.Y with
+            | error e => rfl
+            | ok extra =>
+              rw [he] at h
+              simp only at h
+              rw [okBind, okBind]
+              by_cases h3 : (!extra.isEmpty) = true
+              · rw [if_pos h3, if_pos h3]
+                rw [if_pos h3] at h
+                exact step3_congr (ih _ h)
+              · rw [if_neg h3, if_neg h3]
+                rw [if_neg h3] at h
+                by_cases h4 : (G.removeNodes q.X).districts.length > 1
+                · rw [if_pos h4, if_pos h4]
+                  rw [if_pos h4] at h
+                  exact step4_congr_x (collectTerms_anyUntil ih _ h)
+                · rw [if_neg h4, if_neg h4]
+                  rw [if_neg h4] at h
+                  obtain ⟨hf, hsub⟩ := Bool.or_eq_false_iff.1 h
+                  rw [step67_not_fires _ hf, step67_clearSurr, okBind, okBind]
+                  refine step811_congr (fun s hs => ih s ?_)
+                  exact (List.any_eq_false.1 hsub) s hs |> Bool.eq_false_iff.2
+
+theorem trso_clearSurr_x {sep : SepTest} {q : Query} (h : usesLine6x sep q.fuel q = false) :
+    trso sep q = trso sep (clearSurr q) := by
+  unfold trso
+  rw [clearSurr_fuel]
+  exact trsoF_clearSurr_x sep _ q h
+
+theorem anyUntil_false_of_any {use use' : Query → Bool} {run : Rec} (huse : ∀ s, use' s = false → use s = false) :
+    ∀ (l : List Query), l.any use' = false → anyUntil use run l = false
+  | [], _ => rfl
+  | s :: rest, h => by
+    rw [List.any_cons] at h
+    obtain ⟨h1, h2⟩ := Bool.or_eq_false_iff.1 h
+    unfold anyUntil
+    rw [huse s h1, Bool.false_or]
+    have := anyUntil_false_of_any (run := run) huse rest h2
+    split
+    · exact this
+    · rfl
+
+theorem any_false_mono {use use' : Query → Bool} (huse : ∀ s, use' s = false → use s = false) (l : List Query)
+    (h : l.any use' = false) : l.any use = false := by
+  apply List.any_eq_false.2
+  intro s hs
+  rw [huse s (Bool.eq_false_iff.2 ((List.any_eq_false.1 h) s hs))]
+  exact Bool.false_ne_true
+
+/-- the exact predicate is below the conservative one (contrapositive form) -/
+theorem usesLine6x_false_of (sep : SepTest) :
+    ∀ (fuel : Nat) (q : Query), usesLine6 sep fuel q = false → usesLine6x sep fuel q = false
+  | 0, _, _ => rfl
+  | fuel + 1, q, h => by
+    have ih := usesLine6x_false_of sep fuel
+    unfold usesLine6 at h
+    unfold usesLine6x
+    cases hg : q.graph with
+    | error e => rfl
+    | ok G =>
+      rw [hg] at h
+      simp only at h ⊢
+      by_cases hX : q.X.isEmpty = true
+      · rw [if_pos hX]
+      · rw [if_neg hX]
+        rw [if_neg hX] at h
+        cases ha : G.ancestorsInclusive q.Y with
+        | error e => rfl
+        | ok anc =>
+          rw [ha] at h
+          simp only at h ⊢
+          by_cases h2 : (!(diff' (regularNodes G) anc).isEmpty) = true
+          · rw [if_pos h2]
+            rw [if_pos h2] at h
+            cases hl : line2 q anc with
+            | error e => rfl
+            | ok q' =>
+              rw [hl] at h
+              exact ih q' h
+          · rw [if_neg h2]
+            rw [if_neg h2] at h
+            cases he : noEffectOnOutcomes G q.X q.Y with
+            | error e => rfl
+            | ok extra =>
+              rw [he] at h
+              simp only at h ⊢
+              by_cases h3 : (!extra.isEmpty) = true
+              · rw [if_pos h3]
+                rw [if_pos h3] at h
+                exact ih _ h
+              · rw [if_neg h3]
+                rw [if_neg h3] at h
+                by_cases h4 : (G.removeNodes q.X).districts.length > 1
+                · rw [if_pos h4]
+                  rw [if_pos h4] at h
+                  exact anyUntil_false_of_any ih _ h
+                · rw [if_neg h4]
+                  rw [if_neg h4] at h
+                  obtain ⟨hf, hsub⟩ := Bool.or_eq_false_iff.1 h
+                  rw [hf, Bool.false_or]
+                  exact any_false_mono ih _ hsub
+
+/-- the exact predicate implies the conservative one: `usesLine6x … = false` is the weaker hypothesis -/
+theorem usesLine6x_le {sep : SepTest} {fuel : Nat} {q : Query} (h : usesLine6x sep fuel q = true) :
+    usesLine6 sep fuel q = true := by
+  cases hu : usesLine6 sep fuel q with
+  | true => rfl
+  | false => rw [usesLine6x_false_of sep fuel q hu] at h; cases h
+
 end Trso
 end Y0
